@@ -473,14 +473,45 @@ PROPS["C07"] = dict(
     assumptions=["ryu prints the shortest text that round-trips (hypothesis RyuShortest of c07_roundtrip); exercised by f64pr/f32pr on "
                  "every exponent and, for f32, exhaustively by f32all in the thorough tier",
                  "literals with more than 2^31 digits (exponent arithmetic of exponent.rs saturates) are outside the statement"],
-    partial=[],
+    partial=[
+        "c07_correct_partial (f64 targets): deFloatRoundtrip = convertRoundtrip is proved from two explicit hypotheses: "
+        "ModOk false p = the missing lemma moderate_path_sound for the one call de.rs makes on p (if error_is_accurate accepts "
+        "the 80-bit product of the mantissa and the cached power, rounding it equals rounding the exact value; if it rejects, "
+        "the exact value lies in the neighbourhood of the downward-rounded product) - false on the pinned tree for the literals "
+        "of open finding C07-moderate-truncated, carried by the exact-oracle sweep otherwise; and NoZeroTail false p = not the "
+        "shape of open finding C07-zero-tail",
+        "f32 targets: every layer (c07_split, c07_fast_path_exact, c07_into_float_rne, c07_bhcomp_exact, parse_concise/"
+        "parse_truncated = roundDec b32) is proved for both formats, but the final identification with convertRoundtripSingle "
+        "(the f32 analogue of conv64_eq, parked in docs/C07-parked-f32.lean.txt) and hence c07_correct_partial for f32 are not "
+        "assembled yet; the f32 clause is carried by the correspondence run (all families) and, for print->parse, by the "
+        "exhaustive 2^32 sweep",
+        "c07_roundtrip (print then parse is the identity on finite floats under RyuShortest) is a corollary of "
+        "c07_correct_partial not yet stated; ryu's output is checked against the specification on every sampled exponent "
+        "(f64pr/f32pr) and exhaustively for f32",
+        "the 'every finite f32 survives in every configuration' clause is a finite enumeration in the harness (f32all, 2^32 "
+        "patterns in fr, fr+ap and default builds), not a theorem",
+    ],
     technique="Lean 4: extracted lexical tables proved against exact powers by kernel evaluation; transcription of lexical and its de.rs "
               "integration run bit for bit against the crate; independent exact-rational round-to-nearest-even oracle evaluated on the "
               "crate's output for constructed hard cases (exact midpoints, 768-digit limit, path frontiers)",
-    level_text="Machine-checked: c07_cached_power_accuracy (small cached powers exact, the 66 large ones are the truncated normalised "
-               "64-bit images of 10^k), c07_power_tables.",
-    level_note="Trusted: Lean kernel + 3 standard axioms; extract.py; harness/driver; Model.Lexical transcription validated bit for bit. "
-               "Three open findings of the pinned tree (known_findings.json: C07-zero-tail, C07-f32-negint, C07-moderate-truncated).",
+    level_text="Machine-checked (Lean 4, no axioms beyond the three standard ones): c07_split (for every well-formed literal the leaf "
+               "of de.rs's digit collection and its arguments - significand/exponent, or scratch buffer split at integer_end, zero "
+               "padding, exponent sign - denote exactly the literal's digits and decimal exponent); c07_cached_power_accuracy (the 10 "
+               "small cached powers are exact, the 66 large ones are the truncated normalised 64-bit images of 10^k) and "
+               "c07_power_tables; c07_fast_path_exact (f64 and f32: the fast path returns the correctly rounded value); "
+               "c07_into_float_rne (into_float = IEEE round-to-nearest-even of the extended value, into_downward_float = round toward "
+               "zero, all 64-bit mantissas, subnormals, carry, overflow); c07_bhcomp_exact (the big-integer path with Bigint as Nat "
+               "returns the correctly rounded value, including the MAX_DIGITS truncation argument 2^54*5^1075 < 10^768); "
+               "c07_correct_partial (f64: de.rs + lexical = convertRoundtrip, i.e. nearest-even of the exact value, sign incl. -0.0, "
+               "underflow to +-0, out of range iff the rounding is infinite, exponent-overflow rule - under the explicit per-call "
+               "hypothesis moderate_path_sound and the exclusion of an open finding). The transcription is run bit for bit against "
+               "the crate, and the independent exact-rational oracle is evaluated on the crate's output, on 81k (quick) / 1.4M "
+               "(thorough) constructed literals incl. exact midpoints up to 770 digits and all 2^32 f32 patterns print->parse.",
+    level_note="Trusted: Lean kernel + 3 standard axioms; extract.py; harness/driver; Model.Lexical transcription validated bit for bit; "
+               "math.rs limb arithmetic abstracted by Nat. PARTIAL: moderate_path_sound is an explicit hypothesis of c07_correct_partial "
+               "(it is false on the pinned tree: finding C07-moderate-truncated was found while stating it); f32 top-level assembly "
+               "and c07_roundtrip not yet stated. Three open findings of the pinned tree (known_findings.json: C07-zero-tail, "
+               "C07-f32-negint, C07-moderate-truncated) with validated repairs in docs/C07-fix-*.diff.",
 )
 
 # properties not claimed yet (kept current as checks are added)
